@@ -1,6 +1,7 @@
 import DepsDev.Proofs.C15Interp
 import DepsDev.Proofs.C15Precedence
 import DepsDev.Proofs.C15Equal
+import DepsDev.Proofs.C15Chain
 import DepsDev.Model.Maven.Clauses
 import DepsDev.Ref.MavenModel
 
@@ -19,7 +20,7 @@ Contents
 -/
 namespace DepsDev.Props.C15
 open DepsDev DepsDev.Model.Maven DepsDev.Ref DepsDev.Gen
-open DepsDev.Proofs.C15Interp DepsDev.Proofs.C15Precedence DepsDev.Proofs.C15Equal
+open DepsDev.Proofs.C15Interp DepsDev.Proofs.C15Precedence DepsDev.Proofs.C15Equal DepsDev.Proofs.C15Chain
 
 /-! ## 1. Interpolation terminates and leaves unresolved placeholders in place -/
 
@@ -268,7 +269,39 @@ theorem pipeline_eq_ref_partial (L : Lineage) (hfrag : SinglePlain L = true) (hB
     (hvalid : ValidSingle L = true) : Agrees L :=
   single_plain_agrees L hfrag hB hvalid
 
+/-- **Inheritance is "concatenate, then the first declaration wins".** Maven's child-wins keyed
+merge of a child's list (distinct keys) with the merged list of its ancestors equals the
+deduplicated concatenation the library computes. -/
+theorem inheritance_is_concat_then_first_wins (child anc : List Dep)
+    (h : Clauses.allDistinct (child.map MavenModel.mkey) = true) :
+    MavenModel.mergeKeyed child (firstWins anc) false = firstWins (child ++ anc) :=
+  inherit_eq_firstWins child anc h
+
+/-- **Partial equality theorem with inheritance** (fragment `InheritPlain`: the parent chain resolves
+and is no longer than the library's parent bound; no POM on it has profiles, `${`, or an
+import-scoped entry; within one POM the keys are distinct — a child may override its ancestors'
+declarations). Exact hypotheses: `InheritPlain L` and Maven-validity `effective L ≠ none`.
+On this fragment the six clauses hold. Lineages with profiles, imports or placeholders rest on
+the differential evidence only. -/
+theorem pipeline_eq_ref_partial_inheritance (L : Lineage) (hfrag : InheritPlain L = true)
+    (hvalid : MavenModel.effective L ≠ none) : Agrees L :=
+  inherit_plain_agrees L hfrag hvalid
+
 /-! ### Non-vacuity -/
+
+/-- a lineage with inheritance and overriding: the child `c` (no groupId, no version, parent `g:q:1`)
+declares `g:x` without version and manages `g:x:2`; the parent declares `g:x:1` (overridden) and
+`g:y` without version, and manages `g:x:9` (overridden) and `g:y:3`. -/
+def E_inh : Lineage :=
+  ⟨⟨[], bC, [], ⟨bG, bQ, b1⟩, [], [], [dep bG bX []], [dep bG bX b2], []⟩,
+   [⟨bG, bQ, b1, noKey, bPom, [], [⟨bG, bX, b1, [], [], [116], [], []⟩, dep bG [121] []],
+      [dep bG bX [57], dep bG [121] [51]], []⟩]⟩
+
+example : InheritPlain E_inh = true := by decide
+example : MavenModel.effective E_inh =
+    some ([dep bG bX b2, dep bG [121] [51]], [dep bG bX b2, dep bG [121] [51]]) := by decide
+example : Agrees E_inh := pipeline_eq_ref_partial_inheritance E_inh (by decide) (by decide)
+
 
 /-- a lineage inside the fragment: `g:c:1` with dependency `g:x` (no version, scope test) and
 managed `g:x:2` with an exclusion; both sides yield `g:x:2:jar::test` with the exclusion. -/
